@@ -494,6 +494,7 @@ type FuncSpec struct {
 	File      string
 	Line      int
 	FreshRet  bool
+	Extensional bool // fixed-size array values get an extensionality axiom in this function's VCs
 	Opaque    []string // callee names to treat as opaque (havoc per their modset) even if they have bodies
 }
 
@@ -599,7 +600,7 @@ func (db *SpecDB) LoadSpecFile(path, pkgPath string) error {
 		switch word {
 		case "pkg":
 			curPkg = rest
-		case "func", "lib", "iface":
+		case "func", "lib", "iface", "fieldfn":
 			if cur != nil || curLemma != nil {
 				return fail(i, "nested block (missing end?)")
 			}
@@ -760,6 +761,8 @@ func (db *SpecDB) LoadSpecFile(path, pkgPath string) error {
 				cur.NoSafe = true
 			case "fresh_result":
 				cur.FreshRet = true
+			case "extensional":
+				cur.Extensional = true
 			case "opaque":
 				cur.Opaque = append(cur.Opaque, strings.Fields(strings.ReplaceAll(rest, ",", " "))...)
 			case "loop":
